@@ -143,19 +143,19 @@ SIM_NOTE = ("Trusted in addition: the hand-written simulator model (lean/MbVerif
             "tied to lib.rs/network.rs/queue*.rs by exact-trace comparison of every generated run (8 runs per case: main, repeat, unfiltered, three filters, capped, sim()); the framework model supplies the machines' actions "
             "and the hook log of the run is the random oracle; Instant/Duration arithmetic is modelled as checked integers; integration delays are outside the properties and not modelled.")
 CLAIMED["C14"] = dict(
-    text="Proof (Lean 4) of the per-packet path on the simulator model: NormalSent -> TunnelSent (same side, same time) -> TunnelRecv (other side, exactly one configured delay later while the window count stays within the limit; "
-         "nothing is queued as aggregate delay then) -> NormalRecv, no step creates padding; with no machines the framework returns no actions and draws no randomness for any events, so trigger_update never sets a slot, a timer or blocking. "
-         "The composed identity statement (returned trace = input trace, mirrored and shifted on the server) is NOT a theorem (it needs a window-covering and a heap-ordering lemma): it is the monitor C14.holds, evaluated on the implementation's "
-         "output of every generated run through sim and sim_advanced under every filter combination, plus the exact-trace correspondence with the model.",
+    text="Proof (Lean 4) on the simulator model, composed statement (C14_identity, C14_identity_raw for raw traces with all direction tokens, C14_identity_sim for sim()): for every parsed trace whose s times and r times are in time order, every network delay, "
+         "every filter combination and caps, no explicit packets-per-second limit, every oracle: if the run ended because all normal packets were processed (the caps did not bind), the returned trace satisfies C14.holds - the predicate the monitor evaluates on the "
+         "implementation's output: only plain packet events, the client's TunnelSent at exactly every s time and TunnelRecv at exactly every r time, the server's mirror image shifted by the delay, ordered by time. Built from: the window-covering lemma (the trace-derived limit is never exceeded by the "
+         "1 s sliding count, so the bottleneck adds nothing), the heap-order invariant of the bit-faithful BinaryHeap model (the served event is a minimum of all eight heaps, so nothing is served late or moved), exact per-iteration successors, and the per-hop lemmas. "
+         "Not proved: that non-binding caps imply the noNormal stop (progress). The monitor evaluates the same predicate on every generated run of the implementation through sim and sim_advanced under every filter combination, and the exact-trace correspondence ties the model to the code.",
     ref="7 (C14), 12.8",
     technique="Lean 4 lemmas on the simulator model (per-hop) + spec monitor of the composed statement on the implementation's traces + exact-trace differential correspondence",
     note=SIM_NOTE,
 )
 CLAIMED["C15"] = dict(
-    text="Proof (Lean 4) on the simulator model for every machine set, trace, network, fractions, stop setting and oracle: each side processes at most as many normal TunnelSent events as its share of the input and exactly that many when the run "
-         "stops because all normal packets were processed (counting invariant over the bit-faithful heap: push adds exactly the pushed element, pop removes exactly the returned one), also stated on the returned trace; recorded times are monotone and the "
-         "final sort is the identity; a TunnelRecv is queued only by a TunnelSent, exactly one, other side, same kind, at least one network delay later; the PaddingSent arm never creates or duplicates a normal packet. The one-to-one matching as a multiset statement "
-         "over the whole trace is checked by the monitor on the implementation's traces, not proved.",
+    text="Proof (Lean 4) on the simulator model for every machine set, trace (also raw traces with sn/rn/sp/rp lines: padding lines are ignored), network, fractions, stop setting and oracle: each side processes at most as many normal TunnelSent events as its share of the input and exactly that many when the run "
+         "stops because all normal packets were processed (counting invariant over the bit-faithful heap), also stated on the returned trace; recorded times are monotone and the final sort is the identity; causality over the whole trace (C15_causality_matching: the monitor's own matching predicate holds of the model's "
+         "unfiltered non-faulting trace - every TunnelRecv has a distinct earlier TunnelSent of the same kind on the other side at least one delay before, via a Hall-to-matching lemma on ascending lists); the PaddingSent arm never creates or duplicates a normal packet.",
     ref="7 (C15), 12.8",
     technique="Lean 4 counting invariant over the heap model + per-arm theorems + causality/conservation monitor on the implementation's traces + exact-trace differential correspondence",
     note=SIM_NOTE,
@@ -171,15 +171,16 @@ CLAIMED["C16"] = dict(
 )
 CLAIMED["C17"] = dict(
     text="Proof (Lean 4) on the simulator model: storing a returned action is exactly the contract's slot update (newer action overwrites, Cancel Action/All clears, other slots untouched); executing a scheduled action picks a slot whose due time is the target, "
-         "emits its event with the action's flags stamped with that due time and empties the slot (fires once); the offset served next is never beyond any pending action and stored due times are not in the past. The trace-level statement needs an 'every slot time >= now' loop invariant that is "
-         "not proved; the monitor checks it on the implementation and reports the early-execution finding S1 (open, with replay).",
+         "emits its event with the action's flags stamped with that due time and empties the slot (fires once); trace level: simulated time never passes a pending action timer or internal timer (C17_pending_never_in_past: loop invariant kept by every main-loop iteration), the next served event is never after a pending action; "
+         "C17_executed_when_strictly_earliest is the exact description of what the code does instead of the property (S1): an action is executed at selection time exactly when it is strictly earlier than every timer, expiry, aggregate delay and queue offset, stamped with its due time. "
+         "The monitor checks the property itself on the implementation and reports S1 (open known finding, with replays).",
     ref="7 (C17), 12.8",
     technique="Lean 4 theorems on slot update / firing / selection offsets of the simulator model + property monitor on the implementation's traces (actions recovered through the framework model) + exact-trace differential correspondence",
     note=SIM_NOTE,
 )
 CLAIMED["C18"] = dict(
     text="Proof (Lean 4) on the simulator model: the UpdateTimer arm equals the contract function written from the property text for every current timer, time, duration (0 included, since fix 68d125b) and replace flag; TimerBegin is queued only by an UpdateTimer at the clock; "
-         "TimerEnd fires once, stamped with the expiry, and clears the timer; Cancel Internal/All clears it; the served offset is never beyond a running timer. Trace level: monitor on the implementation; the early-execution finding S1 also affects superseded timers (open, with replay).",
+         "TimerEnd fires once, stamped with the expiry, and clears the timer; Cancel Internal/All clears it; simulated time never passes a running timer (C18_running_timer_never_in_past). Trace level against the property: monitor on the implementation; the early-execution finding S1 also affects superseded timers (open, with replays).",
     ref="7 (C18), 12.8",
     technique="Lean 4 equality of the timer update with the contract function + firing/selection theorems on the simulator model + property monitor + exact-trace differential correspondence",
     note=SIM_NOTE,
